@@ -33,6 +33,13 @@ class Shuffle(zope.testrunner.feature.Feature):
             # we can't introspect the seed later for reporting.  This is a
             # simple emulation of what random.Random.seed does anyway.
             self.seed = int(time.time() * 256)  # use fractional seconds
+            if self.active:
+                # Layers run in subprocesses must be shuffled with this very
+                # seed (the one we report), not with one derived from their
+                # own clock: hand it down with the arguments they get.
+                runner.options.original_testrunner_args = (
+                    list(runner.options.original_testrunner_args) +
+                    ['--shuffle-seed=%d' % self.seed])
 
     def global_setup(self):
         rng = random.Random(self.seed)
